@@ -4,13 +4,12 @@ CONSTANTS
   MaxTlv = 65535
   SfiOffsets = FALSE
   Sizes <- SizesT
-  MaxLes = {1, 2, 3, 4, 5, 127, 128, 129, 192, 193, 255, 256, 257, 4096, 32768, 65535, 65536}
-  Caps = {0, 1, 2, 3, 4, 5, 100, 255, 256, 257}
+  MaxLes = {1, 2, 3, 4, 5, 127, 128, 129, 192, 193, 255, 256, 257, 4096, 32768, 65536}
+  Caps = {0, 1, 2, 5, 100, 255, 256}
   RejectOvers = {0, 256, 255, 192, 191, 128, 127, 100}
   HdrNs = {0, 1, 2, 3, 4}
-  Policies = {"any"}
+  Policies = {"any", "max", "one"}
   SelSws = {"9000", "6A82", "6283", "6982"}
   Slack = {0, 7}
 SPECIFICATION Spec
 INVARIANTS Exact NotFound Bounded
-PROPERTY Terminates
